@@ -80,6 +80,7 @@ type Term struct {
 	gen  int // solver generation in which this term has been defined
 	sup  *support
 	ts   *bitset
+	tab  *[256]uint64
 }
 
 func (t *Term) Sort() Sort    { return t.sort }
@@ -815,7 +816,7 @@ func (t *Term) str(depth int) string {
 	case OpVar:
 		return t.name
 	}
-	if depth > 6 {
+	if depth > 12 {
 		return "…"
 	}
 	var sb strings.Builder
